@@ -564,24 +564,48 @@ Section SemProofs.
   Fixpoint pipe_hist (fs : list tstateT) (ups : list upd) : list tstateT * list upd :=
     match ups with
     | [] => (fs, [])
+    | ([], _) :: r => pipe_hist fs r       (* an empty batch is not passed on at all *)
     | (y, up) :: r =>
         let fs' := upd_spec up fs y in
         let '(fsn, r') := pipe_hist fs' r in
         (fsn, (fwd fs' y, up) :: r')
     end.
 
+  Lemma pipe_hist_nonempty fs (y : series) up r : y <> [] ->
+    pipe_hist fs (@cons upd (y, up) r) =
+    (fst (pipe_hist (upd_spec up fs y) r),
+     (fwd (upd_spec up fs y) y, up) :: snd (pipe_hist (upd_spec up fs y) r)).
+  Proof.
+    destruct y; [contradiction|]. intros _. cbn [pipe_hist].
+    destruct (pipe_hist _ r). reflexivity.
+  Qed.
+
+  Lemma update_pipe_nonempty b fs s y up : y <> [] ->
+    update' (SPipe' b fs s) y up =
+    (let '(ts', yt, tc) := upd_chain' up fs y in
+     let '(f', tc2) := update' s yt up in (SPipe' (base_upd b y) ts' f', tc ++ tc2)).
+  Proof. destruct y; [contradiction|reflexivity]. Qed.
+
   Lemma pipe_after : forall ups b fs s,
     after' (SPipe' b fs s) ups =
     SPipe' (base_after b ups) (fst (pipe_hist fs ups)) (after' s (snd (pipe_hist fs ups))).
   Proof.
     induction ups as [|[y up] r IH]; intros b fs s; [reflexivity|].
-    unfold after_updates at 1. cbn [fold_left fst snd update].
+    destruct y as [|p0 y0].
+    { change (after' (SPipe' b fs s) (([], up) :: r)) with (after' (SPipe' b fs s) r).
+      rewrite IH. reflexivity. }
+    assert (Hy : p0 :: y0 <> []) by discriminate. revert Hy. generalize (p0 :: y0). intros y Hy.
+    unfold after_updates at 1. cbn [fold_left fst snd]. rewrite (update_pipe_nonempty b fs s y up Hy).
     pose proof (upd_chain_spec up fs y) as E.
     destruct (upd_chain' up fs y) as [[fs' yt] tc]. cbn [fst] in E. injection E as -> ->.
     destruct (update' s (fwd (upd_spec up fs y) y) up) as [s' tc2] eqn:E2. cbn [fst].
     fold (after' (SPipe' (base_upd b y) (upd_spec up fs y) s') r). rewrite IH.
-    cbn [pipe_hist]. destruct (pipe_hist (upd_spec up fs y) r) as [fsn r'] eqn:E3.
-    cbn [fst snd]. unfold after_updates at 2. cbn [fold_left fst snd]. rewrite E2. reflexivity.
+    rewrite (pipe_hist_nonempty fs y up r Hy).
+    destruct (pipe_hist (upd_spec up fs y) r) as [fsn r'] eqn:E3.
+    cbn [fst snd].
+    change (after' s ((fwd (upd_spec up fs y) y, up) :: r')) with
+      (after' (fst (update' s (fwd (upd_spec up fs y) y) up)) r').
+    rewrite E2. reflexivity.
   Qed.
 
   (* after fit AND after every update the final forecaster has only ever been given data in the
@@ -600,11 +624,11 @@ Section SemProofs.
   (* the same statement on the calls: during update(y, up) the final forecaster receives exactly
      the calls it would receive from update(fwd(updated chain, y), up), preceded only by
      transformer events; it never receives y itself unless the chain maps y to y *)
-  Lemma pipeline_update_calls b fs s y up :
+  Lemma pipeline_update_calls b fs s y up : y <> [] ->
     exists tc, (forall e, In e tc -> exists g z, e = ETransform g z \/ e = ETUpdate g z up) /\
       snd (update' (SPipe' b fs s) y up) = tc ++ snd (update' s (fwd (upd_spec up fs y) y) up).
   Proof.
-    cbn [update]. unfold upd_chain.
+    intros Hy. rewrite (update_pipe_nonempty b fs s y up Hy).
     assert (G : forall fs fs0 y0 tc0,
       (forall e, In e tc0 -> exists g z, e = ETransform g z \/ e = ETUpdate g z up) ->
       forall e, In e (snd (fold_left (upd_step tr tpar tupd tapp thasupd up) fs (fs0, y0, tc0))) ->
@@ -615,13 +639,20 @@ Section SemProofs.
       apply in_app_or in He. destruct He as [He|He].
       - destruct (thasupd t); [|destruct He]. destruct He as [<-|[]]. eauto.
       - destruct He as [<-|[]]. eauto. }
-    pose proof (upd_chain_spec up fs y) as E. unfold upd_chain in E.
+    pose proof (upd_chain_spec up fs y) as E.
     specialize (G fs [] y [] (fun e (H : In e []) => match H with end)).
-    destruct (fold_left (upd_step tr tpar tupd tapp thasupd up) fs ([], y, [])) as [[fs' yt] tc].
+    change (fold_left (upd_step tr tpar tupd tapp thasupd up) fs ([], y, []))
+      with (upd_chain' up fs y) in G.
+    destruct (upd_chain' up fs y) as [[fs' yt] tc].
     cbn [fst] in E. injection E as -> ->. cbn [snd] in G.
     destruct (update' s (fwd (upd_spec up fs y) y) up) as [s' tc2]. cbn [snd].
     exists tc. split; [exact G|reflexivity].
   Qed.
+
+  (* the empty-batch rule: nothing is called, nothing changes *)
+  Lemma pipeline_empty_batch_is_noop b fs s up :
+    update' (SPipe' b fs s) [] up = (SPipe' b fs s, []).
+  Proof. reflexivity. Qed.
 
   (* each transformer's update / transform input is the batch as transformed by the steps before *)
   Lemma upd_spec_nth : forall up fs y i g t p, nth_error fs i = Some (g, t, p) ->
